@@ -10,6 +10,7 @@ mod refimpl;
 mod scen_ecdsa;
 mod scen_ecies;
 mod scen_interp;
+mod scen_spend;
 mod scen_txhist;
 
 use crate::core::Tier;
